@@ -771,7 +771,11 @@ func (n *Field) String() string {
 	}
 	s.WriteString(n.Type.String())
 	if n.Tag != "" {
-		s.WriteString(" `" + n.Tag + "`")
+		if strings.Contains(n.Tag, "`") {
+			s.WriteString(" " + strconv.Quote(n.Tag))
+		} else {
+			s.WriteString(" `" + n.Tag + "`")
+		}
 	}
 	return s.String()
 }
